@@ -1,3 +1,28 @@
 pub mod commands;
 mod helpers;
 mod tests;
+
+/// Verification hooks: thin public wrappers around private pure functions. Compiled only with
+/// `--features verif-hooks`; never part of a production build.
+#[cfg(feature = "verif-hooks")]
+pub mod verif_api {
+    use cosmwasm_std::{Coin, Decimal, Uint128};
+    use mantra_dex_std::farm_manager::Position;
+
+    use crate::ContractError;
+
+    pub fn calculate_weight(
+        lp_asset: &Coin,
+        unlocking_duration: u64,
+    ) -> Result<Uint128, ContractError> {
+        super::helpers::calculate_weight(lp_asset, unlocking_duration)
+    }
+
+    pub fn calculate_emergency_penalty(
+        position: &Position,
+        base_emergency_penalty: Decimal,
+        current_time: u64,
+    ) -> Result<Decimal, ContractError> {
+        super::helpers::calculate_emergency_penalty(position, base_emergency_penalty, current_time)
+    }
+}
